@@ -21,6 +21,11 @@ func init() {
 
 func runC20(c *Ctx) {
 	defer func() {
+		if eu := c.P.LangFunc("(*Evaluator).evalUnaryExpr"); eu != nil {
+			c.shared("R8", "C09/R5", "the fill-limit error reaches the user from every assignment form: ++ and -- go through evalAssignment and return its error", nil, func(s *Ctx) { incdecTable(s, "R5", eu) })
+		}
+	}()
+	defer func() {
 		c.shared("R6", "C08/R1", "only genuinely nested calls count towards the limit, and everything up to the limit works: every push of a frame is matched by a pop on every continuing path (a leaked frame turns a long loop of calls into a spurious `stack overflow`)", keyHas("balance ", "primitive"), func(s *Ctx) { c08R1(s, discoverFrameModel(s.P)) })
 		c.shared("R7", "C15/R4", "the array-size limit is applied to the index actually used: the resolved index is the integer conversion of the number (or len+index), so the test against the maximum sees the same value the fill loop runs to", keyHas("resolve-", "fill-loop-bound"), func(s *Ctx) { indexResolution(s, "R4") })
 	}()
